@@ -159,8 +159,10 @@ SetBlocksize(b) ==
   /\ phase = "cmd" /\ chan = 1 /\ b < blocksize /\ b >= 1 /\ nblocks < MaxBlocks /\ Len(note) < MaxBlocks + 1
   /\ bits' = bits \o UvarBits(FN_BLOCKSIZE, 2) \o UlongBits(b) /\ blocksize' = b /\ note' = Append(note, FN_BLOCKSIZE)
   /\ UNCHANGED <<hdr, bitshift, chan, hist, offs, phase, cur, data, nblocks>>
+\* The shift is decoder-wide state and BITSHIFT may stand before ANY block: an encoder emits it between the channel
+\* blocks of one frame when the channels have different numbers of always-zero low bits.
 SetBitshift(s) ==
-  /\ phase = "cmd" /\ chan = 1 /\ s # bitshift /\ ~IsAU(hdr.ftype) /\ nblocks < MaxBlocks /\ Len(note) < MaxBlocks + 1
+  /\ phase = "cmd" /\ s # bitshift /\ ~IsAU(hdr.ftype) /\ (nblocks < MaxBlocks \/ chan # 1) /\ Len(note) < MaxBlocks + 2
   /\ bits' = bits \o UvarBits(FN_BITSHIFT, 2) \o UvarBits(s, 2) /\ bitshift' = s /\ note' = Append(note, FN_BITSHIFT)
   /\ UNCHANGED <<hdr, blocksize, chan, hist, offs, phase, cur, data, nblocks>>
 Quit ==
